@@ -1,1 +1,72 @@
-// harness bodies for h2 src/frame/data.rs (compiled in-crate as `verif_h`, feature "verif")
+// harness bodies for h2 src/frame/data.rs
+use super::*;
+
+/// C08/C12.pad/C03: `Data::load` on every flags octet, id and payload <= 10 bytes;
+/// `flow_controlled_len` equals the wire payload length.
+pub fn c12_pad_data_load() {
+    let flags: u8 = kani::any();
+    let sid: u32 = kani::any();
+    kani::assume(sid <= 0x7fff_ffff);
+    let n: usize = kani::any();
+    kani::assume(n <= 10);
+    let pad: u8 = kani::any();
+    let mut raw = [0u8; 10];
+    raw[0] = pad;
+    let mut i = 1;
+    while i < 10 {
+        raw[i] = i as u8;
+        i += 1;
+    }
+    let head = Head::new(Kind::Data, flags, StreamId::from(sid));
+    let r = Data::load(head, crate::frame::verif_h::sym_bytes(raw, n));
+    let padded = flags & 0x8 != 0;
+    match &r {
+        Ok(d) => {
+            assert!(sid != 0, "DATA on stream 0 accepted");
+            assert!(d.flow_controlled_len() == n, "flow_controlled_len != wire payload length");
+            assert!(d.is_end_stream() == (flags & 1 == 1), "END_STREAM flag");
+            assert!(u32::from(d.stream_id()) == sid);
+            if padded {
+                assert!((pad as usize) < n, "pad >= len accepted");
+                assert!(d.payload().len() == n - 1 - pad as usize);
+                let mut i = 0;
+                while i < d.payload().len() {
+                    assert!(d.payload()[i] == (i + 1) as u8, "payload after stripping");
+                    i += 1;
+                }
+            } else {
+                assert!(d.payload().len() == n);
+            }
+        }
+        Err(e) => {
+            if sid == 0 {
+                assert!(*e == Error::InvalidStreamId);
+            } else {
+                assert!(padded && (n == 0 || pad as usize >= n), "legal DATA rejected");
+                assert!(*e == Error::TooMuchPadding);
+            }
+        }
+    }
+    kani::cover!(r.is_ok() && padded && pad > 0, "ok_padded");
+    kani::cover!(matches!(r, Err(Error::TooMuchPadding)), "too_much_padding");
+    kani::cover!(true, "end");
+    std::mem::forget(r);
+}
+
+/// C04.zero: stream-level DATA is never constructed on stream 0 (`assert!` in `Data::new`)
+/// and the head it encodes carries the id, the flags and nothing else.
+pub fn c04_zero_data_head() {
+    let sid: u32 = kani::any();
+    kani::assume(sid >= 1 && sid <= 0x7fff_ffff);
+    let mut d: Data<&'static [u8]> = Data::new(StreamId::from(sid), &[][..]);
+    let eos: bool = kani::any();
+    d.set_end_stream(eos);
+    let h = d.head();
+    assert!(h.kind() == Kind::Data);
+    assert!(u32::from(h.stream_id()) == sid);
+    assert!(h.flag() == if eos { 1 } else { 0 }, "DATA flags: only END_STREAM may be set");
+    assert!(d.is_end_stream() == eos);
+    d.set_end_stream(false);
+    assert!(!d.is_end_stream() && d.head().flag() == 0);
+    kani::cover!(true, "end");
+}
